@@ -169,28 +169,69 @@ def extract_scan_token(prog):
             return ("skip",)
         err(stmts[0], "branch body")
 
+    def table_of(test):
+        """`<c> in TABLE` with TABLE a module-level dict display keyed by characters: the dict, else None"""
+        if isinstance(test, ast.Compare) and len(test.ops) == 1 and isinstance(test.ops[0], ast.In) and isinstance(test.left, ast.Name) \
+                and test.left.id == cvar:
+            c = test.comparators[0]
+            if isinstance(c, ast.Name):
+                vals = [v for v in fn.module.globals.get(c.id, []) if v is not None]
+                if len(vals) == 1 and isinstance(vals[0], ast.Dict) and vals[0].keys and all(is_str_const(k) for k in vals[0].keys):
+                    return c.id, vals[0]
+            if isinstance(c, ast.Dict) and c.keys and all(k is not None and is_str_const(k) for k in c.keys):
+                return unparse(c), c  # the table was propagated into the test as a display
+        return None
+
+    def specialise_branch(stmts, tname, key, value):
+        """the branch body for one key of the table: TABLE[c] -> its entry, tuple unpacking of a literal entry propagated"""
+        import copy
+
+        class T(ast.NodeTransformer):
+            def __init__(self):
+                self.env = {}
+
+            def visit_Subscript(self, n):
+                self.generic_visit(n)
+                if ((isinstance(n.value, ast.Name) and n.value.id == tname) or (isinstance(n.value, ast.Dict) and unparse(n.value) == tname)) \
+                        and isinstance(n.slice, ast.Name) and n.slice.id == cvar:
+                    return copy.deepcopy(value)
+                return n
+
+            def visit_Name(self, n):
+                if isinstance(n.ctx, ast.Load) and n.id in self.env:
+                    return copy.deepcopy(self.env[n.id])
+                return n
+
+        tr = T()
+        out = []
+        for st in copy.deepcopy(stmts):
+            st = tr.visit(st)
+            if isinstance(st, ast.Assign) and len(st.targets) == 1 and isinstance(st.targets[0], (ast.Tuple, ast.List)) \
+                    and isinstance(st.value, (ast.Tuple, ast.List)) and len(st.value.elts) == len(st.targets[0].elts) \
+                    and all(isinstance(t_, ast.Name) for t_ in st.targets[0].elts) and all(isinstance(v_, ast.Constant) for v_ in st.value.elts):
+                for t_, v_ in zip(st.targets[0].elts, st.value.elts):
+                    tr.env[t_.id] = v_
+                continue
+            if isinstance(st, ast.Assign) and len(st.targets) == 1 and isinstance(st.targets[0], ast.Name) and isinstance(st.value, ast.Constant):
+                tr.env[st.targets[0].id] = st.value
+                continue
+            out.append(st)
+        return out
+
     node = body[1]
     seen_chars = {}
+    pending = []  # extra (classifier, body, line) entries produced by expanding a table-driven branch
     while True:
-        cls = classify(node.test)
-        act = action(cls, node.body, node.lineno)
-        sm.branches.append((cls, act, node.lineno))
-        if cls[0] == "chars":
-            for ch in cls[1]:
-                if ch in seen_chars:
-                    sm.conflicts.append((ch, seen_chars[ch], node.lineno))
-                    continue
-                seen_chars[ch] = node.lineno
-                _record(sm, ch, act, node.lineno)
+        tb = table_of(node.test)
+        if tb is not None:
+            tname, table = tb
+            entries = [(("chars", (k.value,)), specialise_branch(node.body, tname, k.value, v), node.lineno) for k, v in zip(table.keys, table.values)]
         else:
-            if act[0] == "helper":
-                sm.helpers.append((cls, act[1], node.lineno))
-            elif act[0] == "skip":
-                sm.skips.append((cls, node.lineno))
-            elif act[0] == "token":
-                sm.helpers.append((cls, "token:" + act[1], node.lineno))
-            elif act[0] != "raise":
-                err(node.test, "class branch action")
+            entries = [(classify(node.test), node.body, node.lineno)]
+        for cls, nbody, nline in entries:
+            act = action(cls, nbody, nline)
+            sm.branches.append((cls, act, nline))
+            _branch_entry(sm, cls, act, nline, seen_chars, err, node)
         if len(node.orelse) == 1 and isinstance(node.orelse[0], ast.If):
             node = node.orelse[0]
             continue
@@ -203,6 +244,25 @@ def extract_scan_token(prog):
             sm.default_line = node.lineno
         break
     return sm, fn
+
+
+def _branch_entry(sm, cls, act, line, seen_chars, err, node):
+    if cls[0] == "chars":
+        for ch in cls[1]:
+            if ch in seen_chars:
+                sm.conflicts.append((ch, seen_chars[ch], line))
+                continue
+            seen_chars[ch] = line
+            _record(sm, ch, act, line)
+    else:
+        if act[0] == "helper":
+            sm.helpers.append((cls, act[1], line))
+        elif act[0] == "skip":
+            sm.skips.append((cls, line))
+        elif act[0] == "token":
+            sm.helpers.append((cls, "token:" + act[1], line))
+        elif act[0] != "raise":
+            err(node.test, "class branch action")
 
 
 def _record(sm, ch, act, line):
